@@ -454,7 +454,9 @@ func runPathWS(sh *Shared, fn *ssa.Function, prefix []Decision, solver, solver2 
 	}()
 	call(i, nil, 0, fn, nil)
 	pr.Status = "ok"
-	pr.Model = p.finalModelWithExtra()
+	if !p.noWitness {
+		pr.Model = p.finalModelWithExtra()
+	}
 	return pr
 }
 
